@@ -22,8 +22,9 @@ ANCHORS = ["src/tickit/devices/iobox.py"]
 def run_real(ops):
     from tickit.devices.iobox import IoBoxDevice
     from tickit.core.typedefs import SimTime
-    box, chained = IoBoxDevice(), IoBoxDevice()
+    box, chained, late = IoBoxDevice(), IoBoxDevice(), IoBoxDevice()
     outs = []
+    held = []   # (index, the output object exactly as update() returned it, what it read at that moment)
     for op in ops:
         if op["o"] == "write":
             box.write(op["a"], op["v"])
@@ -38,7 +39,18 @@ def run_real(ops):
             upd = box.update(SimTime(0), inputs)
             o = [list(x) for x in upd.outputs.get("updates", [])]
             outs.append(o)
+            held.append((len(outs) - 1, upd.outputs, o))
             chained.update(SimTime(0), {"updates": [tuple(x) for x in o]})
+    # a consumer that holds on to the outputs (as DeviceComponent.last_outputs does, by reference) and a second
+    # box that is fed from the held outputs only after the whole history
+    rewritten = []
+    for i, obj, snap in held:
+        now = [list(x) for x in obj.get("updates", [])]
+        if now != snap:
+            rewritten.append((i, snap, now))
+        late.update(SimTime(0), {"updates": [tuple(x) for x in now]})
+    box._verif_rewritten = rewritten
+    box._verif_late = late
     return outs, dict(box._memory) if hasattr(box, "_memory") else None, (box, chained)
 
 
@@ -62,6 +74,10 @@ def monitor(ops, outs, boxes):
                 vs.append(V("update-output-order", f"update output {out}, applied-in-order is {applied}",
                             site="IoBoxDevice.update", multi_write_same_addr=len({a for a, _ in applied}) < len(applied)))
     box, chained = boxes
+    for i, snap, now in getattr(box, "_verif_rewritten", []):
+        vs.append(V("output-rewritten-later", f"the output of update (op #{i}) read {snap} when it was returned and reads {now} "
+                    "after later updates: an earlier output is an alias of later ones", site="IoBoxDevice.update"))
+    late = getattr(box, "_verif_late", None)
     for a in {0, 1, 2, 3}:
         def rd(b):
             try:
@@ -73,6 +89,9 @@ def monitor(ops, outs, boxes):
                         site="IoBoxDevice.update", multi_write_same_addr=True))
         if rd(box) != rd(chained):
             vs.append(V("chained-differs", f"address {a}: box {rd(box)} chained box {rd(chained)}", site="IoBoxDevice.update"))
+        if late is not None and rd(box) != rd(late):
+            vs.append(V("chained-differs", f"address {a}: box {rd(box)}, a box fed from the held outputs after the history {rd(late)}",
+                        site="IoBoxDevice.update", late=True))
     return vs
 
 
